@@ -1177,6 +1177,14 @@ func (r *RouteTable) resyncIface(nl netlinkshim.Interface, ifaceName string) err
 				// so the fact that it's missing is expected.
 				continue
 			}
+			dpKernRoute, ok := r.kernelRoutes.Dataplane().Get(routeKey)
+			if !ok || dpKernRoute.Ifindex != ifIndex {
+				// The route that we think is in the dataplane isn't on this
+				// interface (for example, it's about to move here from another
+				// interface) so we didn't expect to see it in this listing.  Keep
+				// tracking it so that it gets cleaned up if it's no longer wanted.
+				continue
+			}
 			r.kernelRoutes.Dataplane().Delete(routeKey)
 		}
 	}
